@@ -184,6 +184,14 @@ def reject (s : S) (id : String) : S :=
   | (s, some (_, q, m)) => s.set q (insert m (s.get q))
   | (s, none) => s
 
+/-- `_RabbitConsumer.finish`: the consumer is cancelled at the server (no further deliveries) and every message still in
+    its local queue is rejected (requeue) under its delivery tag (consumer.py:128-146); the server reacts to each reject
+    as it arrives (a returned message whose delay has run out expires at once when it comes to the head of its queue) -/
+def finish (s : S) (cid : Nat) (now : Int) : S :=
+  match s.consumers.find? (·.1 == cid) with
+  | some (_, c) => c.loc.foldl (fun acc m => settle (reject acc m.id) now) { s with consumers := s.consumers.filter (·.1 != cid) }
+  | none => s
+
 /-- `requeue` = `ack` (first round trip), then `enqueue` (second round trip) -/
 def requeueAtoms (m : Msg) (millis : Option Int) (now : Int) : List (S → S) :=
   [fun s => ack s m.id, fun s => publish s m millis now]
